@@ -289,6 +289,35 @@ struct SubStats {
     notes: Vec<String>,
 }
 
+/// Per-worker accumulator (merged into the report at the end of a worker's run; avoids
+/// contention on the report lock).
+#[derive(Default)]
+pub struct LocalStats {
+    evaluations: u64,
+    nontrivial: Vec<u64>,
+    labels: BTreeMap<&'static str, u64>,
+    samples_nontrivial: Vec<Value>,
+    samples_trivial: Vec<Value>,
+    known: Vec<(String, Value)>,
+}
+
+impl LocalStats {
+    fn record_ok(&mut self, ok: &CaseOk, case_hash: u64, sample: impl FnOnce() -> Value) {
+        self.evaluations += 1;
+        for l in &ok.labels {
+            *self.labels.entry(l).or_default() += 1;
+        }
+        if ok.nontrivial {
+            self.nontrivial.push(case_hash);
+            if self.samples_nontrivial.len() < 2 {
+                self.samples_nontrivial.push(sample());
+            }
+        } else if self.samples_trivial.is_empty() {
+            self.samples_trivial.push(sample());
+        }
+    }
+}
+
 #[derive(Debug, Clone)]
 pub struct Violation {
     pub sub: String,
@@ -435,6 +464,31 @@ impl Report {
             }
         } else if st.samples_trivial.is_empty() {
             st.samples_trivial.push(sample());
+        }
+    }
+
+    pub fn merge(&self, sub: &str, l: LocalStats) {
+        let mut subs = self.subs.lock().unwrap();
+        let st = subs.entry(sub.to_string()).or_default();
+        st.evaluations += l.evaluations;
+        for (k, v) in l.labels {
+            *st.labels.entry(k).or_default() += v;
+        }
+        st.nontrivial_hashes.extend(l.nontrivial);
+        for s in l.samples_nontrivial {
+            if st.samples_nontrivial.len() < 3 {
+                st.samples_nontrivial.push(s);
+            }
+        }
+        for s in l.samples_trivial {
+            if st.samples_trivial.is_empty() {
+                st.samples_trivial.push(s);
+            }
+        }
+        drop(subs);
+        for (sig, sample) in l.known {
+            self.record_known(sub, &sig);
+            self.record_known_sample(&sig, || sample);
         }
     }
 
@@ -674,17 +728,19 @@ fn config(cases: u32) -> Config {
 /// violation.
 fn eval_case<C: Serialize>(
     rep: &Report,
+    local: &Mutex<LocalStats>,
     sub: &str,
     case: &C,
     check: &(impl Fn(&C) -> CaseResult + ?Sized),
     counting: bool,
 ) -> Result<(), Fail> {
     let r = guard_case(sub, || check(case));
+    PROGRESS.fetch_add(1, Ordering::Relaxed);
     match r {
         Ok(ok) => {
             if counting {
                 let bytes = serde_json::to_vec(case).unwrap_or_default();
-                rep.record_ok(sub, &ok, hash_bytes(&bytes), || {
+                local.lock().unwrap().record_ok(&ok, hash_bytes(&bytes), || {
                     serde_json::to_value(case).unwrap_or(Value::Null)
                 });
             }
@@ -693,10 +749,13 @@ fn eval_case<C: Serialize>(
         Err(f) => {
             if rep.is_known(&f.signature) {
                 if counting {
-                    rep.record_known(sub, &f.signature);
-                    rep.record_known_sample(&f.signature, || {
+                    let mut l = local.lock().unwrap();
+                    let sample = if l.known.iter().any(|(s, _)| *s == f.signature) {
+                        Value::Null
+                    } else {
                         json!({"sub": sub, "message": f.msg, "case": serde_json::to_value(case).unwrap_or(Value::Null)})
-                    });
+                    };
+                    l.known.push((f.signature.clone(), sample));
                 }
                 Ok(())
             } else {
@@ -725,6 +784,7 @@ where
     }
     let mut runner = TestRunner::new_with_rng(config(n), rng_for(mix(seed, hash_str(sub))));
     let failed = AtomicBool::new(false);
+    let local = Mutex::new(LocalStats::default());
     let hung = AtomicBool::new(false);
     let first_fail: Mutex<Option<Fail>> = Mutex::new(None);
     let track_current = std::env::var("SV_TRACK_CURRENT").is_ok();
@@ -741,7 +801,7 @@ where
             return Ok(());
         }
         let counting = !failed.load(Ordering::Relaxed);
-        match eval_case(rep, sub, &case, &check, counting) {
+        match eval_case(rep, &local, sub, &case, &check, counting) {
             Ok(()) => Ok(()),
             Err(f) => {
                 failed.store(true, Ordering::Relaxed);
@@ -756,6 +816,7 @@ where
             }
         }
     });
+    rep.merge(sub, local.into_inner().unwrap());
     match res {
         Ok(()) => true,
         Err(TestError::Fail(_, minimal)) => {
@@ -833,16 +894,21 @@ pub fn run_enumerated<C>(
 where
     C: Serialize + std::fmt::Debug + Clone,
 {
+    let local = Mutex::new(LocalStats::default());
+    let mut ok = true;
     for case in cases {
         if rep.stopped() {
-            return false;
+            ok = false;
+            break;
         }
-        if let Err(f) = eval_case(rep, sub, &case, &check, true) {
+        if let Err(f) = eval_case(rep, &local, sub, &case, &check, true) {
             rep.record_violation(sub, f, serde_json::to_value(&case).unwrap());
-            return false;
+            ok = false;
+            break;
         }
     }
-    true
+    rep.merge(sub, local.into_inner().unwrap());
+    ok
 }
 
 /// Replays one saved case.
